@@ -68,6 +68,8 @@ def cases(tier, seed):
 
 
 def worker_setup(ctx):
+    from vf import neutral
+    neutral.enable(ctx)      # neutral prefixes after conversion in half of the cases
     pass
 
 
